@@ -34,17 +34,20 @@ pub struct Ctx {
     pub stats: BTreeMap<String, u64>,
     pub samples: Vec<String>,
     lines: u64,
+    /// flush after every line (a worker process that may be killed mid-case)
+    pub flush_each: bool,
 }
 
 impl Ctx {
     pub fn new(seed: u64, thorough: bool) -> Self {
         Ctx { rng: Rng(seed ^ 0x5eed_5eed), thorough, out: std::io::BufWriter::new(std::io::stdout()),
-              stats: BTreeMap::new(), samples: vec![], lines: 0 }
+              stats: BTreeMap::new(), samples: vec![], lines: 0, flush_each: false }
     }
     pub fn line(&mut self, op: &str, obs: &str) {
         debug_assert!(!op.contains('\t') && !op.contains('\n') && !obs.contains('\t') && !obs.contains('\n'));
         let obs = if obs.is_empty() { "-" } else { obs };
         writeln!(self.out, "{}\t{}", op, obs).unwrap();
+        if self.flush_each { self.out.flush().unwrap(); }
         self.lines += 1;
         if self.samples.len() < 5 && op.len() < 300 && obs.len() < 300 {
             self.samples.push(format!("{} => {}", op, obs));
